@@ -311,7 +311,7 @@ func genUEChoice(t *rapid.T, k int, taken map[uint64]bool) refamf.UEChoice {
 	case 0:
 		u.Options = 0
 	case 1:
-		u.Options = 1 << uint(rapid.IntRange(0, 23).Draw(t, l+"opt_one"))
+		u.Options = 1 << uint(rapid.IntRange(0, len(refamf.OptNames)-1).Draw(t, l+"opt_one"))
 	default:
 		for b := 0; b < len(refamf.OptNames); b++ {
 			if rapid.IntRange(0, 2).Draw(t, l+"opt_"+refamf.OptNames[b]) == 0 {
